@@ -1,4 +1,5 @@
 import KpModel.Format.Kdbx4Lemmas
+import KpModel.Xml.Unknown
 /-!
 # C01 — opening a well-formed KDBX4 file yields exactly the stored content (container part)
 Property theorems only.  Model: `KpModel/Format/Kdbx4.lean` (`decrypt` is the faithful transcription of
@@ -139,3 +140,30 @@ theorem C01_framing_build (P : Prims) (L : P.Laws) (c : Config) (t : Tape) (l : 
       exact C01_framing P L c t l atts xml composite tk ct htk hct (C ct)
 
 end Kp.Fmt
+
+namespace Kp.Xml
+
+/-- **unknown elements are skipped**: in every struct parser that tolerates unknown children (`KeePassFile`'s `Meta`, groups,
+    entries, histories, auto-type, associations, string fields, memory protection, icons, the binary pool) an element the
+    parser has no rule for — with anything inside it, to any depth, same-named descendants included — is consumed whole and
+    the parse goes on exactly as if it had not been there, for every accumulator and whatever follows -/
+theorem C01_unknown_child_skipped {σ : Type} (self : String) (dispatch : String → σ → Option (P σ)) (fuel : Nat) (acc : σ)
+    (n : String) (a : List (String × String)) (inner : List Ev) (m : String) (rest : List Ev) (off : Nat)
+    (hnone : dispatch n acc = none) (h : Balanced inner) :
+    structLoop self dispatch skipUnknown (fuel + 1) acc ⟨.start n a :: inner ++ .stop m :: rest, off⟩
+      = structLoop self dispatch skipUnknown fuel acc ⟨rest, off⟩ :=
+  structLoop_unknown_skipped self dispatch fuel acc n a inner m rest off hnone h
+
+/-- … and the strict ones (`Times`, `CustomData` and its items, `DeletedObjects`, `Root`, `KeePassFile`) reject it -/
+theorem C01_unknown_child_rejected {σ : Type} (self : String) (dispatch : String → σ → Option (P σ)) (fuel : Nat) (acc : σ)
+    (n : String) (a : List (String × String)) (evs : List Ev) (off : Nat) (hnone : dispatch n acc = none) :
+    structLoop self dispatch rejectUnknown (fuel + 1) acc ⟨.start n a :: evs, off⟩ = .err .integrity :=
+  structLoop_unknown_rejected self dispatch fuel acc n a evs off hnone
+
+/-- the premise is met by nested content with a same-named descendant and character data -/
+example : Balanced [.start "X" [], .chars "t", .start "X" [("a", "b")], .stop "X", .stop "X", .chars "u"] :=
+  Balanced.elem "X" [] [.chars "t", .start "X" [("a", "b")], .stop "X"] "X" [.chars "u"]
+    (Balanced.chars "t" _ (Balanced.elem "X" [("a", "b")] [] "X" [] Balanced.nil Balanced.nil))
+    (Balanced.chars "u" _ Balanced.nil)
+
+end Kp.Xml
